@@ -627,6 +627,7 @@ Fixpoint go (n : nat) (m : mode) (g : G) (ctx : env) (s : st) {struct n} : outco
   | Or a b => choice_loop run m [a; b] ctx (save s) s
   | Choice gs =>
       match gs with
+      | [] => (Err, fail_here [] s)         (* no such tuple exists in Rust; kept total and failing loudly *)
       | [g1] => run m g1 ctx s
       | _ => choice_loop run m gs ctx (save s) s
       end
